@@ -19,18 +19,19 @@ import (
 type OpKind uint8
 
 const (
-	QWrite   OpKind = iota + 1 // A: event size, B: chunking mode
-	QFlush                     //
-	QBegin                     // reader Begin
-	QNext                      // reader Next
-	QRead                      // A: buffer mode (0 whole event, 1 one page, 2 seven bytes, 3 half of the rest)
-	QDone                      // reader Done
-	QAck                       // A: 0 = everything read so far, n>0 = n events
-	QReopen                    // close queue and file, open both again
-	QReadAll                   // Begin, read every available event completely, Done
-	QFinish                    // finish an event whose Write/Next failed earlier (file full)
-	QFill                      // A: event size; write events until the queue reports an error
-	QAvail                     // reader Available (inside a reader transaction)
+	QWrite     OpKind = iota + 1 // A: event size, B: chunking mode
+	QFlush                       //
+	QBegin                       // reader Begin
+	QNext                        // reader Next
+	QRead                        // A: buffer mode (0 whole event, 1 one page, 2 seven bytes, 3 half of the rest)
+	QDone                        // reader Done
+	QAck                         // A: 0 = everything read so far, n>0 = n events
+	QReopen                      // close queue and file, open both again
+	QReadAll                     // Begin, read every available event completely, Done
+	QFinish                      // finish an event whose Write/Next failed earlier (file full)
+	QFill                        // A: event size; write events until the queue reports an error
+	QAvail                       // reader Available (inside a reader transaction)
+	QWritePart                   // A: bytes, B: chunking; Write without Next: the event stays unfinished
 )
 
 // Chunking modes of QWrite.
@@ -43,7 +44,7 @@ const (
 )
 
 var opNames = map[OpKind]string{QWrite: "W", QFlush: "Flush", QBegin: "RBegin", QNext: "RNext", QRead: "RRead", QDone: "RDone",
-	QAck: "ACK", QReopen: "Reopen", QReadAll: "ReadAll", QFinish: "Finish", QFill: "Fill", QAvail: "Avail"}
+	QAck: "ACK", QReopen: "Reopen", QReadAll: "ReadAll", QFinish: "Finish", QFill: "Fill", QAvail: "Avail", QWritePart: "WPart"}
 
 // Op is one queue operation.
 type Op struct {
@@ -56,6 +57,8 @@ func (o Op) String() string {
 	switch o.K {
 	case QWrite:
 		return fmt.Sprintf("W(%d,c%d)", o.A, o.B)
+	case QWritePart:
+		return fmt.Sprintf("WPart(%d,c%d)", o.A, o.B)
 	case QRead, QAck, QFill:
 		return fmt.Sprintf("%s(%d)", opNames[o.K], o.A)
 	}
